@@ -335,8 +335,11 @@ func (s *ServiceItemStmt) CommentGroup() (head, leading CommentGroup) {
 func (s *ServiceItemStmt) Format(prefix ...string) string {
 	w := NewBufferWriter()
 	if s.AtDoc != nil {
-		w.WriteText(s.AtDoc.Format(prefix...))
-		w.NewLine()
+		// a doc that formats to nothing takes no line
+		if text := s.AtDoc.Format(prefix...); text != NilIndent {
+			w.WriteText(text)
+			w.NewLine()
+		}
 	}
 	w.WriteText(s.AtHandler.Format(prefix...))
 	w.NewLine()
